@@ -116,6 +116,57 @@ def run_forward(chk, e):
         "AssignmentAnalysis.__init__:all_vars>=ass_before_entry+every-assigned-variable", e.explore(t_init), post_init,
         func=f"{MOD}:AssignmentAnalysis.__init__"))
 
+    # ---- frame + value of the domain functions for 1..3 concrete arguments: the fixpoint proof
+    # below treats the values stored in vals_before / vals_after as immutable; that is sound only if
+    # join / apply_bb / eq leave the sets they are handed (cached values of other blocks) unchanged
+    def frames():
+        def same_arr(a, b):
+            return z3.ForAll([x_], z3.Select(a, x_) == z3.Select(b, x_))
+        for n in (1, 2, 3):
+            Ds = [z3.Const(f"FD{k}", VSet) for k in range(n)]
+            Ms = [z3.Const(f"FM{k}", VSet) for k in range(n)]
+
+            def t_join(it, n=n, Ds=Ds, Ms=Ms):
+                AA = it.lookup_global(e.module(MOD), "AssignmentAnalysis")
+                aa = SObj(AA, {"stats": B.mk_stats(), "ass_before_entry": SSet(B.EVAR, ABE), "maybe_ass_before_entry": SSet(B.EVAR, MBE),
+                               "all_vars": SSet(B.EVAR, z3.Const("ALLVARS", VSet)), "_include_unreachable": True})
+                ts = [(SSet(B.EVAR, Ds[k]), SSet(B.EVAR, Ms[k])) for k in range(n)]
+                r = it.call(it.getattr(aa, "join"), list(ts), {})
+                return r, ts, aa
+
+            def post_join(p, n=n, Ds=Ds, Ms=Ms):
+                if p.kind != "return" or not (isinstance(p.value[0], tuple) and len(p.value[0]) == 2 and all(isinstance(v, SColl) for v in p.value[0])):
+                    return z3.BoolVal(False)
+                (rd, rm), ts, aa = p.value
+                frame = [same_arr(ts[k][0].arr, Ds[k]) for k in range(n)] + [same_arr(ts[k][1].arr, Ms[k]) for k in range(n)]
+                frame += [same_arr(aa.fields["ass_before_entry"].arr, ABE), same_arr(aa.fields["maybe_ass_before_entry"].arr, MBE)]
+                return z3.And(z3.ForAll([x_], z3.Select(rd.arr, x_) == z3.And(*[z3.Select(d, x_) for d in Ds])),
+                              z3.ForAll([x_], z3.Select(rm.arr, x_) == z3.Or(*[z3.Select(m, x_) for m in Ms])), *frame)
+            chk.prove_paths(f"AssignmentAnalysis.join[{n}-arguments]:(intersection-of-def,union-of-maybe)/\\every-argument-set-left-unchanged", e.explore(t_join), post_join,
+                            func=f"{MOD}:AssignmentAnalysis.join")
+        Dv, Mv = z3.Const("FDv", VSet), z3.Const("FMv", VSet)
+        bb0 = z3.Const("FB", BB)
+
+        def t_apply(it):
+            AA = it.lookup_global(e.module(MOD), "AssignmentAnalysis")
+            it.ctx.assume(z3.Select(B.STATS_DOM, bb0))
+            aa = SObj(AA, {"stats": B.mk_stats(), "ass_before_entry": SSet(B.EVAR, ABE), "maybe_ass_before_entry": SSet(B.EVAR, MBE),
+                           "all_vars": SSet(B.EVAR, z3.Const("ALLVARS", VSet)), "_include_unreachable": True})
+            vb = (SSet(B.EVAR, Dv), SSet(B.EVAR, Mv))
+            return it.call(it.getattr(aa, "apply_bb"), [vb, B.EBB.wrap(bb0)], {}), vb
+
+        def post_apply(p):
+            if p.kind != "return" or not (isinstance(p.value[0], tuple) and len(p.value[0]) == 2 and all(isinstance(v, SColl) for v in p.value[0])):
+                return z3.BoolVal(False)
+            (rd, rm), vb = p.value
+            asg = lambda x: z3.Select(z3.Select(ASG, bb0), x)  # noqa: E731
+            return z3.And(z3.ForAll([x_], z3.Select(rd.arr, x_) == z3.Or(z3.Select(Dv, x_), asg(x_))),
+                          z3.ForAll([x_], z3.Select(rm.arr, x_) == z3.Or(z3.Select(Mv, x_), asg(x_))),
+                          same_arr(vb[0].arr, Dv), same_arr(vb[1].arr, Mv))
+        chk.prove_paths("AssignmentAnalysis.apply_bb:(def+assigned,maybe+assigned)/\\the-value-before-is-left-unchanged", e.explore(t_apply), post_apply,
+                        func=f"{MOD}:AssignmentAnalysis.apply_bb")
+    chk.section("assignment-frames", frames)
+
     def forward(incl):
         ALL = z3.Const("ALLVARS", VSet)
 
